@@ -57,7 +57,7 @@ func (s walkScen) String() string {
 
 func parseWalk(op string) walkScen {
 	w := strings.Fields(op)
-	if len(w) != 8 {
+	if len(w) != 8 || (w[0] != "walk" && w[0] != "walko") {
 		panic("bad walk op")
 	}
 	// reuse the session tier's parser for the script
@@ -374,6 +374,34 @@ func execWalk(op string) (answer string) {
 	}
 }
 
+// reduceWalk keeps what the specification determines (op `walk`): the strides, all rows, and the final error
+// once a call has returned false; the full answer is op `walko`.
+func reduceWalk(full string) string {
+	f := strings.Fields(full)
+	if len(f) != 4 || !strings.HasPrefix(f[1], "rows=") || !strings.HasPrefix(f[2], "err=") {
+		return full // crash:, hang, fatal:
+	}
+	var keep []string
+	ended := false
+	for _, o := range strings.Split(f[0], ";") {
+		if strings.HasPrefix(o, "s=") || strings.HasPrefix(o, "d=") || strings.HasPrefix(o, "D=") {
+			keep = append(keep, o)
+			if strings.HasSuffix(o, "/F") || !strings.HasPrefix(o, "s=") {
+				ended = true
+			}
+		}
+	}
+	e := "err=*"
+	if ended {
+		e = f[2]
+	}
+	k := "-"
+	if len(keep) > 0 {
+		k = strings.Join(keep, ";")
+	}
+	return fmt.Sprintf("%s %s %s", k, f[1], e)
+}
+
 // ---------- generation ----------
 
 type wgen struct {
@@ -543,7 +571,9 @@ func walkTier(r *vh.Rng, out *vh.Out, tier string) map[string]interface{} {
 	}
 	wg.Wait()
 	for i, j := range jobs {
-		out.Case(j.sc.String(), res[i], j.cls, true)
+		op := j.sc.String()
+		out.Case(op, reduceWalk(res[i]), j.cls, true)
+		out.Case("walko"+strings.TrimPrefix(op, "walk"), res[i], "o/"+j.cls, true)
 	}
 	return map[string]interface{}{"walk_scenarios": len(jobs)}
 }
